@@ -18,3 +18,42 @@ func (c *Conn) VerifDeliver(p []byte) error {
 
 	return err
 }
+
+// ---- in-memory socket for the listener (C11, C12) ------------------------------------------------
+
+// VerifPacketConn is what Listen needs from the socket it opens.
+type VerifPacketConn interface {
+	net.PacketConn
+	SetReadBuffer(int) error
+	SetWriteBuffer(int) error
+}
+
+// VListenUDPHook, when set, replaces net.ListenUDP inside ListenConfig.Listen (the instrumented
+// copy of conn.go calls vListenUDP).
+var VListenUDPHook func(network string, laddr *net.UDPAddr) (VerifPacketConn, error)
+
+func vListenUDP(network string, laddr *net.UDPAddr) (VerifPacketConn, error) {
+	if VListenUDPHook != nil {
+		return VListenUDPHook(network, laddr)
+	}
+	c, err := net.ListenUDP(network, laddr)
+	if err != nil {
+		return nil, err
+	}
+
+	return c, nil
+}
+
+// VerifQueued is the number of connections waiting in the accept queue.
+func VerifQueued(l net.Listener) int {
+	ll, _ := l.(*listener)
+
+	return len(ll.acceptCh)
+}
+
+// VerifBuffered is the number of datagrams waiting in the connection's buffer.
+func VerifBuffered(c net.Conn) int {
+	cc, _ := c.(*Conn)
+
+	return cc.buffer.Count()
+}
